@@ -138,6 +138,10 @@ static void check_option_api(int opt, long v) {
   mi_option_set_default((mi_option_t)opt, v ^ 1); if (mi_option_get((mi_option_t)opt) != v) violation(rp, "api-set-default: mi_option_set_default changed an explicitly set option %s", d->name);
   mi_option_disable((mi_option_t)opt); if (mi_option_get((mi_option_t)opt) != 0) violation(rp, "api-disable: %s", d->name);
   mi_option_enable((mi_option_t)opt); if (mi_option_get((mi_option_t)opt) != 1) violation(rp, "api-enable: %s", d->name);
+  mi_option_set_enabled((mi_option_t)opt, false); if (mi_option_get((mi_option_t)opt) != 0 || mi_option_is_enabled((mi_option_t)opt)) violation(rp, "api-set-enabled: %s false", d->name);
+  mi_option_set_enabled((mi_option_t)opt, true); if (mi_option_get((mi_option_t)opt) != 1 || !mi_option_is_enabled((mi_option_t)opt)) violation(rp, "api-set-enabled: %s true", d->name);
+  mi_option_set_enabled_default((mi_option_t)opt, false); if (mi_option_get((mi_option_t)opt) != 1) violation(rp, "api-set-enabled-default: changed an explicitly set option %s", d->name);
+  d->init = DEFAULTED; mi_option_set_enabled_default((mi_option_t)opt, (v & 1) != 0); if (mi_option_get((mi_option_t)opt) != (v & 1)) violation(rp, "api-set-enabled-default2: %s on a defaulted option", d->name);
   d->init = DEFAULTED; mi_option_set_default((mi_option_t)opt, v); if (mi_option_get((mi_option_t)opt) != v) violation(rp, "api-set-default2: mi_option_set_default(%s,%ld) on a defaulted option", d->name, v);
   d->value = saved; d->init = si; options[mi_option_guarded_min].value = gmin; options[mi_option_guarded_max].value = gmax;
   if (v == LONG_MAX || v == LONG_MIN || v == 0 || v == -1) n_nontrivial++;
@@ -253,7 +257,11 @@ int main(int argc, char** argv) {
   // (d)
   { check_json(0); size_t full = json_full_len; for (int round = 0; round < (thorough ? 6 : 2); round++) { randomize_stats(); check_json(0); full = json_full_len; size_t step = thorough ? 1 : 3; for (size_t s = 1; s <= full + 2; s += (s < 300 || s + 300 > full ? 1 : step)) check_json(s); }
     sample("json: mi_stats_get_json(size, exact-size heap buffer) for every size 1..full+2 (dense near both ends) and (0,NULL), with randomised statistics values up to +-2^62");
-    for (int round = 0; round < (thorough ? 200 : 30); round++) { randomize_stats(); n_eval += 4; cls[7] += 4; mi_stats_print_out(&sink, NULL); mi_thread_stats_print_out(&sink, NULL); mi_options_print(); mi_arenas_print(); n_nontrivial++; }
+    for (int round = 0; round < (thorough ? 200 : 30); round++) { randomize_stats(); n_eval += 4; cls[7] += 4; mi_stats_print_out(&sink, NULL); mi_thread_stats_print_out(&sink, NULL); mi_options_print(); mi_arenas_print(); n_nontrivial++;
+      /* legacy / rarely used forms: mi_stats_print(out) forwards to the same printer, mi_stats_merge folds the thread statistics into the main ones,
+         mi_process_info accepts any subset of its out-parameters */
+      n_eval += 3; cls[7] += 3; mi_stats_print((void*)&sink); mi_stats_merge();
+      { size_t el = 1, ut = 2, st = 3, cr = 4, pr = 5, cc = 6, pc = 7, pf = 8; mi_process_info(&el, &ut, &st, &cr, &pr, &cc, &pc, &pf); mi_process_info(NULL, NULL, NULL, NULL, NULL, NULL, NULL, NULL); mi_process_info(&el, NULL, &st, NULL, &pr, NULL, &pc, NULL); (void)cr; (void)ut; (void)cc; (void)pf; } }
     mi_stats_reset(); }
   printf("{\"evaluations\":%ld,\"distinct_nontrivial\":%ld,\"violations\":%ld,\"classes\":{", n_eval, n_nontrivial, n_viol);
   for (int i = 0; cls_names[i]; i++) printf("%s\"%s\":%ld", i ? "," : "", cls_names[i], cls[i]);
